@@ -59,6 +59,8 @@ LEVEL = "exploration"
 P = "C08/max_flow/"
 TIMEOUT_S = 5.0
 PRESENT_TIMEOUT_S = 0.3  # presented instances have <= 40 nodes (a call on the unchanged tree takes < 5 ms); two calls per instance
+PRESENT_RETRY_S = 2.0  # a presented instance that ran out of the budget above is run once more with this one (at most until two
+#                        instances have exhausted it as well in the same worker process)
 
 
 def ladder_timeout(n):
@@ -221,11 +223,31 @@ def present(case):
             fp.call_label(case["t"], case["labels"], alias, case["pres"]))
 
 
+_HANGS = 0  # per worker process: presented instances that ran out of PRESENT_RETRY_S as well
+_FROZEN = False
+
+
+def _freeze_once():
+    """Pool workers are forked from a parent that may hold millions of objects by then (thorough tier); a full garbage
+    collection walking them costs 0.1-0.3 CPU-s and would be charged to whatever call it interrupts."""
+    global _FROZEN
+    if not _FROZEN:
+        import gc
+        gc.freeze()
+        _FROZEN = True
+
+
 def eval_present(case):
-    g, lab, back, src, snk = present(case)
+    global _HANGS
     arcs = [tuple(a[:3]) for a in case["arcs"]]
+    g, lab, back, src, snk = present(case)
     out, info, _ = judge_call(g, lab, back, case["n"], case["s"], case["t"], arcs=arcs, src=src, snk=snk, frame=True,
                               timeout=PRESENT_TIMEOUT_S)
+    if info.get("timeout") and _HANGS < 2:  # once more on newly built objects with a larger budget before it counts
+        g, lab, back, src, snk = present(case)
+        out, info, _ = judge_call(g, lab, back, case["n"], case["s"], case["t"], arcs=arcs, src=src, snk=snk, frame=True,
+                                  timeout=PRESENT_RETRY_S)
+        _HANGS += bool(info.get("timeout"))
     return out, info
 
 
@@ -801,6 +823,7 @@ def pres_counts(cases):
 def w_present_exh(job):
     """job = (n, k, prefix, caps, seed, reps): every multiset of k arc types starting with `prefix`, each in `reps`
     presentations (label schemes taken round robin, the rest drawn per instance)."""
+    _freeze_once()
     n, k, prefix, caps, seed, reps = job
     rng = random.Random(seed)
     types = arc_types(n, caps)
@@ -817,6 +840,7 @@ def w_present_exh(job):
 
 
 def w_present_list(job):
+    _freeze_once()
     bases, seed, reps = job
     rng = random.Random(seed)
     cases = []
@@ -829,6 +853,7 @@ def w_present_list(job):
 
 
 def w_present_seeded(job):
+    _freeze_once()
     kind, seed, count, nmax = job
     rng = random.Random(seed)
     gen = {"layered": gen_layered, "random": lambda r: gen_random(r, nmax), "reopen": gen_reopen, "paths": gen_paths}[kind]
@@ -863,7 +888,7 @@ def _merge(ctx, results, tally):
             tally["viol"].append((ob, case, detail))
         for c in touts:
             ctx.undecided.append({"obligation": P + "call-returns", "why": f"no result within the CPU budget ({TIMEOUT_S} s; more than 40 "
-                                  f"nodes: max(2, (n/100)^2/5) s; presented instances: {PRESENT_TIMEOUT_S} s) on {c}"})
+                                  f"nodes: max(2, (n/100)^2/5) s; presented instances: {PRESENT_TIMEOUT_S} s, then {PRESENT_RETRY_S} s) on {c}"})
 
 
 def _size(case):
